@@ -297,6 +297,9 @@ class Interp:
             self.emit(self._sub_stmt(st), st)
             return None
         if isinstance(st, ast.Return):
+            r = self._check_raise(st)
+            if r:
+                return Exit("raise", ast.Name(id=r, ctx=ast.Load()), st)
             return Exit("return", self.value(st.value) if st.value is not None else None, st)
         if isinstance(st, ast.Raise):
             return Exit("raise", self.value(st.exc) if st.exc is not None else None, st)
